@@ -27,6 +27,8 @@ __definition_node_ids = set()
 __sort_lookup = {}
 # Stores indices that should not be replaced by constants
 __indices = set()
+# Stores the names of declared or defined functions that take arguments
+__nary_functions = set()
 # Caches calls to get_sort
 __get_sort_cache = {}
 # Stores constants for datatype sorts
@@ -45,6 +47,7 @@ def collect_information(exprs):  # noqa: C901
     global __definition_node_ids
     global __sort_lookup
     global __indices
+    global __nary_functions
     global __datatypes_constants
     global __datatypes_constructors
     global __datatypes_selectors
@@ -78,6 +81,8 @@ def collect_information(exprs):  # noqa: C901
                 continue
             if cmd[2] == tuple():
                 __constants[cmd[1].data] = cmd[3]
+            else:
+                __nary_functions.add(cmd[1].data)
             __definition_node_ids.add(cmd[1].id)
             __sort_lookup[cmd[1].data] = cmd[3]
         if name == 'define-fun':
@@ -93,6 +98,8 @@ def collect_information(exprs):  # noqa: C901
                 continue
             if cmd[2] == tuple():
                 __constants[cmd[1]] = cmd[3]
+            else:
+                __nary_functions.add(cmd[1].data)
             __defined_functions[cmd[1]] = (len(
                 cmd[2]), lambda args, cmd=cmd: nodes.substitute(
                     cmd[4], {cmd[2][i][0]: args[i]
@@ -189,6 +196,7 @@ def reset_information():
     global __definition_node_ids
     global __sort_lookup
     global __indices
+    global __nary_functions
     global __get_sort_cache
     global __datatypes_constants
     global __datatypes_constructors
@@ -198,6 +206,7 @@ def reset_information():
     __definition_node_ids = set()
     __sort_lookup = {}
     __indices = set()
+    __nary_functions = set()
     __get_sort_cache = {}
     __datatypes_constants = {}
     __datatypes_constructors = {}
@@ -213,7 +222,10 @@ def get_variables_with_sort(var_sort):
     Requires that global information has been populated via
     ``collect_information``.
     """
-    return [v for v in __sort_lookup if __sort_lookup[v] == var_sort]
+    return [
+        v for v in __sort_lookup
+        if __sort_lookup[v] == var_sort and v not in __nary_functions
+    ]
 
 
 def introduce_variables(exprs, vars):
